@@ -1,5 +1,5 @@
 """C08 (narrow): four statistics equal their definitions and are additive over windows in the exact-integer regime (C);
-the Python sample_count_stat builds the indicator weights (CrossHair)."""
+the Python sample_count_stat builds the indicator weights and Tree.rf_distance follows its definition (CrossHair)."""
 import os
 import sys
 
@@ -14,6 +14,8 @@ def conds(tier):
     return [
         dict(module='c08_props', function='indicator_weights', timeout=120, encodes=enc,
              what='W[i][k] = 1 iff the i-th sample is in set k, for 3 samples whose node ids are not 0..n-1 and every membership pattern of two sets; options passed through'),
+        dict(module='c08_props', function='rf_distance_definition', timeout=150, encodes=['tskit.trees.Tree.rf_distance', 'tskit.trees.Tree._get_sample_sets'],
+             what='Tree.rf_distance = size of the symmetric difference of the clade sets for all pairs of 4 rooted 3-leaf shapes; ValueError for several roots or different sample nodes'),
         dict(module='c08_props', function='non_samples_and_duplicates_rejected', timeout=120,
              what='repeated elements / non-sample nodes in a sample set raise ValueError'),
     ]
@@ -88,4 +90,4 @@ MANIFEST = dict(
 def run(pid, tier, seed, only=None):
     import mixed
     return mixed.run_mixed(pid, tier, seed, only, jobs(tier), conds(tier), BOUNDS[tier], OUTSIDE, ASSUMPTIONS,
-                           ['fake tree sequence: samples(), node().is_sample(), general_stat recorder'])
+                           ['fake tree sequence: samples(), node().is_sample(), general_stat recorder', 'fake tree for rf_distance: nodes(postorder), children, is_sample, samples, num_roots'])
